@@ -69,7 +69,11 @@ class _Interp(Base):
             far = rng.random() < 0.3               # several periods away, negative, beyond the upper edge
             pts.append([float(Fraction(rng.randint(-16 * n, 24 * n) if far else rng.randint(-8, 8 * (n + 1)), 8) * Fraction(dj))
                         for n, dj in zip(sh, dist)])
-        return dict(cls=self.name, doms=doms, points=pts, dtype=_pick_dtype(rng, "fc"))
+        c = dict(cls=self.name, doms=doms, points=pts, dtype=_pick_dtype(rng, "fc"))
+        if rng.random() < 0.2:                     # integer sampling positions handed over as an int64 array
+            c["points"] = [[float(rng.randint(-2 * n, 3 * n)) for n in sh] for _ in range(npts)]
+            c["points_int"] = True
+        return c
 
     def malformed(self, rng):
         c = self.gen(rng, True)
@@ -82,7 +86,7 @@ class _Interp(Base):
 
     def build(self, case):
         import nifty.cl as ift
-        pts = np.array(case["points"], dtype=np.float64).T
+        pts = np.array(case["points"], dtype=np.int64 if case.get("points_int") else np.float64).T
         return ift.LinearInterpolator(U.build_domtuple(case["doms"]), pts)
 
     def line(self, case):
@@ -346,29 +350,79 @@ def _sampled_line_integral(case, x, M=20000):
     return np.array(out)
 
 
+def _exact_pixel_lengths(case):
+    """independent of any traversal: for every line and every pixel the length of (segment ∩ pixel box), by clipping the
+    parameter interval [0,1] against the 2·ndim faces of that one pixel (float64; exact up to rounding ~1e-16)"""
+    shape = case["shape"]
+    dist = [float(Fraction(d)) for d in case["dist"]]
+    out = np.zeros((len(case["starts"]),) + tuple(shape))
+    L = _los_lengths(case)
+    for r, (s, e) in enumerate(zip(case["starts"], case["ends"])):
+        ps = [float(Fraction(v)) / dj + 0.5 for v, dj in zip(s, dist)]
+        pe = [float(Fraction(v)) / dj + 0.5 for v, dj in zip(e, dist)]
+        lo_ax, hi_ax = [], []
+        for j, n in enumerate(shape):
+            d = pe[j] - ps[j]
+            i = np.arange(n, dtype=np.float64)
+            if d == 0.0:
+                inside = (i < ps[j]) & (ps[j] < i + 1)
+                lo = np.where(inside, 0.0, 2.0)
+                hi = np.where(inside, 1.0, -1.0)
+            else:
+                t0, t1 = (i - ps[j]) / d, (i + 1 - ps[j]) / d
+                lo, hi = np.minimum(t0, t1), np.maximum(t0, t1)
+            lo_ax.append(lo)
+            hi_ax.append(hi)
+        for idx in np.ndindex(*shape):
+            lo = max([0.0] + [lo_ax[j][i] for j, i in enumerate(idx)])
+            hi = min([1.0] + [hi_ax[j][i] for j, i in enumerate(idx)])
+            if hi > lo:
+                out[(r,) + idx] = (hi - lo) * L[r]
+    return out
+
+
 def los_oracle(case):
-    """LOSResponse returns line integrals of the (piecewise constant) field: compare with a sampled integral; adjointness"""
+    """LOSResponse returns line integrals of the (piecewise constant) field: Σ_pixels field·|segment ∩ pixel| with the
+    intersection lengths computed pixel by pixel (no traversal), for float64 / complex128 / float32 fields; a sampled
+    integral as a second, cruder reference; adjointness.  A constructor failure on a well-formed case is a failure."""
     import random
     rng = random.Random(zlib.crc32(json.dumps(case, sort_keys=True).encode()))
-    try:
-        dom, op, st, en = _los_build(case)
-    except Exception:
-        return None
     sig = lambda kind, **kw: dict(cls="LOSResponse", kind=kind, **kw)
     try:
+        dom, op, st, en = _los_build(case)
+    except Exception as e:
+        return (f"LOSResponse: constructor raised {type(e).__name__}: {str(e)[:100]} on well-formed starts/ends",
+                sig("build-error", error=type(e).__name__))
+    try:
         import nifty.cl as ift
-        x = np.array([float(rng.randint(0, 4)) for _ in range(dom.size)]).reshape(dom.shape)
-        got = op(ift.makeField(dom, x)).asnumpy()
-        want = _sampled_line_integral(case, x)
+        W = _exact_pixel_lengths(case)                      # (nlos,) + shape
         L = np.array(_los_lengths(case))
-        tol = (sum(case["shape"]) + 4) * L / 20000 * 4 + 1e-4 * L + 1e-6
-        if np.any(np.abs(got - want) > tol):
-            i = int(np.argmax(np.abs(got - want) - tol))
-            return (f"LOSResponse: line {i} gives {got[i]!r}, sampled line integral of the field is {want[i]!r}",
+        Wsum = np.abs(W).reshape(len(L), -1).sum(axis=1)
+        for dt in (np.float64, np.complex128, np.float32):
+            x = np.array([float(rng.randint(0, 4)) for _ in range(dom.size)]).reshape(dom.shape).astype(dt)
+            if dt is np.complex128:
+                x = x + 1j * np.array([float(rng.randint(-3, 3)) for _ in range(dom.size)]).reshape(dom.shape)
+            got = op(ift.makeField(dom, x)).asnumpy()
+            want = np.tensordot(W, x.astype(np.complex128 if dt is np.complex128 else np.float64), axes=len(dom.shape))
+            xm = float(np.abs(x).max()) + 1e-30
+            # 1e-7 shrink at both ends (2e-7·L), float32 storage of every weight (6e-8 relative), float32 accumulation for
+            # float32 fields
+            tol = 3e-7 * L * xm + (2e-7 if dt is not np.float32 else 1e-6) * Wsum * xm + 1e-12
+            if np.any(np.abs(got - want) > tol):
+                i = int(np.argmax(np.abs(got - want) - tol))
+                return (f"LOSResponse ({np.dtype(dt).name} field): line {i} gives {got[i]!r}, the line integral "
+                        f"Σ field·|segment ∩ pixel| is {want[i]!r}", sig("line-integral"))
+            if dt is np.float64:
+                got64, x64 = got, x
+        want2 = _sampled_line_integral(case, x64)
+        tol2 = (sum(case["shape"]) + 4) * L / 20000 * 4 + 1e-4 * L + 1e-6
+        if np.any(np.abs(got64 - want2) > tol2):
+            i = int(np.argmax(np.abs(got64 - want2) - tol2))
+            return (f"LOSResponse: line {i} gives {got64[i]!r}, sampled line integral of the field is {want2[i]!r}",
                     sig("line-integral"))
         y = np.array([float(rng.randint(-3, 3)) for _ in range(op.target.size)])
         AHy = op.adjoint_times(ift.makeField(op.target, y)).asnumpy()
-        lhs, rhs = float(np.vdot(y, got)), float(np.vdot(AHy, x))
+        lhs, rhs = float(np.vdot(y, got64)), float(np.vdot(AHy, x64))
         if abs(lhs - rhs) > 1e-5 * (abs(lhs) + abs(rhs) + 1):
             return (f"LOSResponse: <y,Ax> = {lhs} but <A^H y,x> = {rhs}", sig("adjoint"))
     except Exception as e:
@@ -444,6 +498,9 @@ def _los_process(ctx, cases, outs):
         except Exception as e:
             ctx.case(case, False)
             ctx.disagree(case, {"error": type(e).__name__}, m, "LOSResponse could not be built")
+            r = los_oracle(case)
+            if r is not None:
+                ctx.counterexample(case, r[0], r[1])
             continue
         if "error" in m:
             ctx.case(case, False)
